@@ -35,6 +35,28 @@ type BlockContext struct {
 	BlockInfo
 
 	storage map[BlockContextKey]any
+
+	// commitHooks are the callbacks to run when the block is committed.
+	commitHooks []func()
+}
+
+// OnCommit registers a callback that is run once the block that is being processed has been
+// committed.
+//
+// Anything that changes node-local state outside the consensus state as a result of processing a
+// block must be done in such a callback, as a block can be executed (as a proposal) without ever
+// being decided, in which case the consensus state is rolled back but local state is not.
+func (bc *BlockContext) OnCommit(hook func()) {
+	bc.commitHooks = append(bc.commitHooks, hook)
+}
+
+// RunCommitHooks runs and clears the callbacks registered via OnCommit.
+func (bc *BlockContext) RunCommitHooks() {
+	hooks := bc.commitHooks
+	bc.commitHooks = nil
+	for _, hook := range hooks {
+		hook()
+	}
 }
 
 // Get returns the value stored under the given key (if any). If no value
